@@ -76,11 +76,23 @@ func readGitConfig(configs ...*git.ConfigurationSource) (gf *GitFetcher, extensi
 					if err == nil && p >= 0 {
 						ext.Priority = p
 					}
+				default:
+					if gc.OnlySafeKeys {
+						// An unknown property must not register
+						// the extension as a side effect.
+						ignored = append(ignored, key)
+						continue
+					}
 				}
 
 				extensions[name] = ext
 			} else if len(parts) > 1 && parts[0] == "remote" {
-				if gc.OnlySafeKeys && (len(parts) == 3 && parts[2] != "lfsurl") {
+				// Of a remote's settings only remote.<name>.lfsurl is safe
+				// (the name may itself contain dots); in particular neither
+				// other keys of such a remote nor the two-part keys
+				// remote.lfsdefault, remote.lfspushdefault and
+				// remote.pushdefault may come from an unsafe source.
+				if gc.OnlySafeKeys && (len(parts) < 3 || parts[len(parts)-1] != "lfsurl") {
 					ignored = append(ignored, key)
 					continue
 				}
